@@ -1,7 +1,6 @@
 package command
 
 import (
-	"strconv"
 	"time"
 
 	"github.com/v-byte-cpu/sx/pkg/scan/tcp"
@@ -90,24 +89,47 @@ func VerifH_C18_portRanges() {
 	}
 }
 
-// VerifH_C18_portRoundTrip: every pair of ports, rendered canonically, parses back.
+// c18Digits returns a canonical decimal numeral of n digits (no leading zero unless n == 1)
+// whose digits are solver variables, and its value.  Every number has exactly one such numeral.
+func c18Digits(label string, n int, max uint64) ([]byte, uint64) {
+	b := make([]byte, n)
+	var v uint64
+	for i := range b {
+		d := ndU8(label)
+		verifAssume(d <= 9)
+		if i == 0 && n > 1 {
+			verifAssume(d != 0)
+		}
+		b[i] = '0' + d
+		v = v*10 + uint64(d)
+	}
+	verifAssume(v <= max)
+	return b, v
+}
+
+// VerifH_C18_portRoundTrip: the canonical numeral of every port pair parses back.
 func VerifH_C18_portRoundTrip() {
-	a, z := ndU16("a"), ndU16("z")
-	s := strconv.Itoa(int(a)) + "-" + strconv.Itoa(int(z))
+	la := verifParam("LA", 2)
+	lz8 := ndU8("lenZ")
+	verifAssume(lz8 >= 1 && lz8 <= 5)
+	lz := int(verifConcretize(uint64(lz8)))
+	ab, a := c18Digits("a", la, 65535)
+	zb, z := c18Digits("z", lz, 65535)
+	s := string(ab) + "-" + string(zb)
 	r, err := parsePortRange(s)
 	verifAssert(err == nil, "canonical a-z rendering rejected")
 	if err == nil {
-		verifAssert(r.StartPort == a && r.EndPort == z, "canonical a-z rendering parses to other bounds")
+		verifAssert(uint64(r.StartPort) == a && uint64(r.EndPort) == z, "canonical a-z rendering parses to other bounds")
 	}
-	r, err = parsePortRange(strconv.Itoa(int(a)))
+	r, err = parsePortRange(string(ab))
 	verifAssert(err == nil, "canonical single port rejected")
 	if err == nil {
-		verifAssert(r.StartPort == a && r.EndPort == a, "canonical single port parses to other bounds")
+		verifAssert(uint64(r.StartPort) == a && uint64(r.EndPort) == a, "canonical single port parses to other bounds")
 	}
-	rs, err := parsePortRanges(s + "," + strconv.Itoa(int(z)))
+	rs, err := parsePortRanges(s + "," + string(zb))
 	verifAssert(err == nil && len(rs) == 2, "canonical list rejected")
 	if err == nil && len(rs) == 2 {
-		verifAssert(rs[0].StartPort == a && rs[0].EndPort == z && rs[1].StartPort == z && rs[1].EndPort == z, "canonical list parses to other bounds")
+		verifAssert(uint64(rs[0].StartPort) == a && uint64(rs[0].EndPort) == z && uint64(rs[1].StartPort) == z && uint64(rs[1].EndPort) == z, "canonical list parses to other bounds")
 	}
 	verifCover("done")
 }
@@ -155,30 +177,32 @@ func VerifH_C18_rateLimit() {
 	verifAssert(window >= 0, "negative window accepted")
 }
 
-// VerifH_C18_rateRoundTrip: canonical renderings "N/Wunit" parse back.
+// VerifH_C18_rateRoundTrip: canonical renderings "N/Wunit", "N/unit", "N" parse back.
 func VerifH_C18_rateRoundTrip() {
-	n := ndU32("n")
-	verifAssume(n <= 1<<31-1)
-	w := ndU16("w")
-	verifAssume(w >= 1 && w <= 999)
+	ln := verifParam("LN", 2)
+	lw8 := ndU8("lenW")
+	verifAssume(lw8 >= 1 && lw8 <= 3)
+	lw := int(verifConcretize(uint64(lw8)))
+	nb, n := c18Digits("n", ln, 1<<31-1)
+	wb, w := c18Digits("w", lw, 999)
+	verifAssume(w >= 1)
 	u := ndU8("unit")
 	verifAssume(u < 3)
 	units := [3]string{"ms", "s", "m"}
 	durs := [3]time.Duration{time.Millisecond, time.Second, time.Minute}
 	uu := int(verifConcretize(uint64(u)))
-	s := strconv.Itoa(int(n)) + "/" + strconv.Itoa(int(w)) + units[uu]
-	c, win, err := parseRateLimit(s)
+	c, win, err := parseRateLimit(string(nb) + "/" + string(wb) + units[uu])
 	verifAssert(err == nil, "canonical N/Wunit rejected")
 	if err == nil {
-		verifAssert(c == int(n), "canonical rate: count differs")
+		verifAssert(uint64(c) == n, "canonical rate: count differs")
 		verifAssert(win == time.Duration(w)*durs[uu], "canonical rate: window differs")
 	}
 	// bare unit
-	c, win, err = parseRateLimit(strconv.Itoa(int(n)) + "/" + units[uu])
-	verifAssert(err == nil && c == int(n) && win == durs[uu], "canonical N/unit does not parse to one unit")
+	c, win, err = parseRateLimit(string(nb) + "/" + units[uu])
+	verifAssert(err == nil && uint64(c) == n && win == durs[uu], "canonical N/unit does not parse to one unit")
 	// no window
-	c, win, err = parseRateLimit(strconv.Itoa(int(n)))
-	verifAssert(err == nil && c == int(n) && win == time.Second, "canonical N does not parse to N per second")
+	c, win, err = parseRateLimit(string(nb))
+	verifAssert(err == nil && uint64(c) == n && win == time.Second, "canonical N does not parse to N per second")
 	verifCover("done")
 }
 
@@ -220,15 +244,21 @@ func VerifH_C18_tcpFlagsSubset() {
 			names = append(names, c18TCPNames[i])
 		}
 	}
-	// render with symbolic letter case
+	// render with symbolic letter case: one choice per flag name (CASE=1) or per list (CASE=0)
+	perName := verifParam("CASE", 0) == 1
+	listUpper := ndBool("upperAll")
 	var s []byte
 	for j, n := range names {
 		if j > 0 {
 			s = append(s, ',')
 		}
+		up := listUpper
+		if perName {
+			up = ndBool("upper")
+		}
 		for i := 0; i < len(n); i++ {
 			c := n[i]
-			if ndBool("upper") {
+			if up {
 				c -= 'a' - 'A'
 			}
 			s = append(s, c)
@@ -254,9 +284,20 @@ func VerifH_C18_tcpFlagsSubset() {
 }
 
 // VerifH_C18_tcpFlagsAny: every string of length L either is refused or names flags only.
+// c18ASCII restricts a symbolic string to ASCII (the letter-case folding of the flag parsers
+// walks UTF-8 sequences byte value by byte value; non-ASCII input is a separate, shorter obligation).
+func c18ASCII(b []byte) {
+	if verifParam("ASCII", 1) == 1 {
+		for _, c := range b {
+			verifAssume(c < 0x80)
+		}
+	}
+}
+
 func VerifH_C18_tcpFlagsAny() {
 	L := verifParam("L", 3)
 	b := ndBytes("s", L)
+	c18ASCII(b)
 	flags, err := parseTCPFlags(string(b))
 	if err != nil {
 		verifCover("rejected")
@@ -301,6 +342,7 @@ func VerifH_C18_tcpFlagsAny() {
 func VerifH_C18_ipFlags() {
 	L := verifParam("L", 3)
 	b := ndBytes("s", L)
+	c18ASCII(b)
 	r, err := parseIPFlags(string(b))
 	if err != nil {
 		verifCover("rejected")
@@ -355,9 +397,10 @@ func VerifH_C18_ipFlagsSubset() {
 			s = append(s, ',')
 		}
 		first = false
+		up := ndBool("upper")
 		for j := 0; j < len(names[i]); j++ {
 			c := names[i][j]
-			if ndBool("upper") {
+			if up {
 				c -= 'a' - 'A'
 			}
 			s = append(s, c)
